@@ -17,12 +17,13 @@ RULE_TEXT = ('contract on str() of Fixed, Guarded and Rational: the text (unders
              'rounded half-up at the display digits (for negative exact ties half-away-from-zero is also accepted), with exactly that many '
              'fractional digits, the guard digits after an underscore when display > precision, the right sign, and the stored value unchanged. '
              'Swept: for precision, guard, display in 0..5 every raw value in [-1300,1300] plus all values within 3 of every carry / half-unit '
-             'boundary up to 10^(p+g+1) (this sub-space is enumerated completely), random magnitudes to 10^40, rational ties k/(2*10^d); the '
+             'boundary up to 10^(p+g+1) (this sub-space is enumerated completely), random magnitudes to 10^40 and exact ties +-1 at up to 60 dropped digits (precision to 20, guard to 40), rational ties k/(2*10^d); the '
              'contract stays installed while counts are rendered (report, dump, json) under fixed/guarded/rational with display below, at and '
-             'above the precision. non-trivial = a printed value that needed rounding or is negative; distinct = distinct (class, settings, value)')
+             'above the precision; after each such count the previous one, when it used another arithmetic class, is rendered again and must read exactly as before (the configured display digits belong to the election). non-trivial = a printed value that needed rounding or is negative; distinct = distinct (class, settings, value)')
 ASSUMPTIONS = ['fractions.Fraction is the trusted shadow', '"N" and "N.0" are both accepted at display 0; "-0.00" and "0.00" both accepted for values rounding to zero']
 MIN_COUNTERS = {'str_evaluations': 200000, 'fixed_str': 50000, 'guarded_str': 50000, 'rational_str': 20000,
-                'rounded_or_negative': 20000, 'str_inside_renderings': 20000}
+                'rounded_or_negative': 20000, 'str_inside_renderings': 20000,
+                're_renderings_after_a_count_of_another_class': 50}
 ANCHOR_FILES = ['droop/values/fixed.py', 'droop/values/guarded.py', 'droop/values/rational.py', 'droop/record.py']
 
 
@@ -52,12 +53,28 @@ def sweep(rec, ctx, rng, exhaustive):
         if g == 0 or not exhaustive:
             Fixed.initialize(Options(dict(arithmetic='fixed', precision=p, display=d)))
             vals = interesting(p, max(0, p - min(d, p))) if exhaustive else [rng.randint(-10 ** rng.randint(0, 40), 10 ** rng.randint(0, 40)) for _ in range(300)]
+            if not exhaustive:
+                u = 10 ** max(0, p - min(d, p))
+                for _ in range(60):
+                    base = rng.randint(0, 10 ** rng.randint(0, 6)) * u
+                    for delta in (-1, 0, 1):
+                        vals.append(base + u // 2 + delta)
+                        vals.append(-(base + u // 2 + delta))
             for r in vals:
                 str(Fixed(r, True))
                 n += 1
         Guarded.initialize(Options(dict(arithmetic='guarded', precision=p, guard=g, display=d)))
         dd = min(d, p + g)
         vals = interesting(p + g, p + g - dd) if exhaustive else [rng.randint(-10 ** rng.randint(0, 40), 10 ** rng.randint(0, 40)) for _ in range(300)]
+        if not exhaustive:
+            # values on and beside a rounding boundary at any number of dropped digits (ties are where a rounding rule shows)
+            u = 10 ** (p + g - dd)
+            for _ in range(60):
+                base = rng.randint(0, 10 ** rng.randint(0, 6)) * u
+                for delta in (-1, 0, 1):
+                    vals.append(base + u // 2 + delta)
+                    vals.append(-(base + u // 2 + delta))
+                vals.append(base + u - 1)
         for r in vals:
             str(Guarded(r, True))
             n += 1
@@ -80,6 +97,31 @@ def sweep(rec, ctx, rng, exhaustive):
     return n
 
 
+def first_diff(a, b):
+    la, lb = a.splitlines(), b.splitlines()
+    for x, y in zip(la, lb):
+        if x != y:
+            return (x[:160], y[:160])
+    return ('%d lines' % len(la), '%d lines' % len(lb))
+
+
+def rerender(first, then):
+    "count and render `first`, then `then` (another arithmetic class), then render `first` again"
+    a = do_count(first['blt'], first['options'], budget=60, render=True)
+    b = do_count(then['blt'], then['options'], budget=60, render=True)
+    if not (a.complete and b.complete):
+        return []
+    out = []
+    try:
+        again = dict(report=a.E.report(), dump=a.E.dump(), json=a.E.json())
+    except Exception as e:      # pylint: disable=broad-except
+        return [('re-rendering-raises:' + type(e).__name__, repr(e))]
+    for what in ('report', 'dump', 'json'):
+        if again[what] != getattr(a, what):
+            out.append(('printed-form-changed-by-another-election:' + what, repr(first_diff(getattr(a, what), again[what]))))
+    return out
+
+
 def shard(ctx):
     rec = Recorder()
     rm = install_str(rec)
@@ -93,6 +135,7 @@ def shard(ctx):
             ctx.count('random_values', n)
         before = rec.total()
         n_min = 30 if ctx.quick else 300
+        prev = None
         for i, rng in ctx.cases(n_min, 10 ** 9):
             rule = rng.choice(['wigm', 'wigm', 'wigm', 'meek', 'warren', 'scotland', 'mpls', 'cfer', 'wigm-prf', 'meek-prf', 'qpq'])
             opts = dict(rule=rule)
@@ -129,6 +172,24 @@ def shard(ctx):
                     if key.startswith(('report-', 'dump-', 'json-')):
                         ctx.violation('rendering-not-the-printed-form:' + key, msg, dict(kind='rendered-count', blt=gen.render(s), options=opts))
                 ctx.sample(dict(options=opts, report_excerpt=(run.report or '')[:400]), keep=1)
+                # the configured display digits belong to the election: rendering an election of another arithmetic class in
+                # between must not change how this one prints (the value classes keep their settings per class)
+                if prev is not None and prev[0].cfg.kind != run.cfg.kind:
+                    pr, pblt, popts = prev
+                    ctx.count('re_renderings_after_a_count_of_another_class')
+                    try:
+                        again = dict(report=pr.E.report(), dump=pr.E.dump(), json=pr.E.json())
+                    except Exception as e:      # pylint: disable=broad-except
+                        again = None
+                        ctx.violation('re-rendering-raises:' + type(e).__name__, 're-rendering a finished %s count after a %s count raised %r'
+                                      % (pr.cfg.kind, run.cfg.kind, e), dict(kind='re-render', first=dict(blt=pblt, options=popts), then=dict(blt=gen.render(s), options=opts)))
+                    for what in ('report', 'dump', 'json') if again else ():
+                        if again[what] != getattr(pr, what):
+                            ctx.violation('printed-form-changed-by-another-election:' + what,
+                                          'the %s of a finished %s count (display=%s) reads differently after a %s count was rendered: %r'
+                                          % (what, pr.cfg.kind, popts.get('display'), run.cfg.kind, first_diff(getattr(pr, what), again[what])),
+                                          dict(kind='re-render', first=dict(blt=pblt, options=popts), then=dict(blt=gen.render(s), options=opts)))
+                prev = (run, gen.render(s), opts)
         ctx.count('str_inside_renderings', rec.total() - before)
     finally:
         rm()
@@ -144,6 +205,8 @@ def shard(ctx):
 
 
 def replay(case):
+    if case.get('kind') == 're-render':
+        return rerender(case['first'], case['then'])
     if case.get('kind') == 'rendered-count':
         from . import c18
         run = do_count(case['blt'], case['options'], budget=60, render=True)
